@@ -31,7 +31,7 @@ type Input struct {
 // detection of a member leaves behind in the pooled scratch state.
 var Families = []string{
 	"text", "text_nul", "latin1", "bom16", "html_meta", "xml_enc",
-	"json", "json_trunc", "json_bad", "geojson", "har", "gltf", "json_deep", "json_nest", "json_wide",
+	"json", "json_trunc", "json_bad", "geojson", "har", "gltf", "json_deep", "json_nest", "json_wide", "json_esc",
 	"ndjson", "ndjson_bad", "csv", "csv_ragged", "csv_big", "tsv",
 	"png", "gif", "pdf", "zip", "docx", "ole", "elf", "gzip", "random", "empty",
 	"shebang", "svg", "rtf", "srt", "vcard", "bom8", "utf8", "tar", "sample", "corpus", "poison",
@@ -179,7 +179,7 @@ func (in Input) Tag() string {
 		return "json"
 	case "json_nest":
 		return "nest-cap"
-	case "json", "json_wide", "ndjson":
+	case "json", "json_wide", "ndjson", "json_esc":
 		return "json"
 	case "csv_ragged":
 		return "csv-early-return"
@@ -269,7 +269,7 @@ func (in Input) base() []byte {
 	case "text":
 		return textN(clamp(n, 1, 1<<22), in.Seed)
 	case "text_nul":
-		b := textN(clamp(n, 1, 1<<22), in.Seed)
+		b := textN(clamp(n, 1, 1<<25), in.Seed)
 		if p >= 0 && p < len(b) {
 			b[p] = 0
 		}
@@ -329,6 +329,25 @@ func (in Input) base() []byte {
 			}
 		}
 		return out
+	case "json_esc":
+		// valid JSON whose keys and strings use escapes: \uXXXX (also for plain ASCII
+		// letters and as surrogate pairs), \n, \", \\, \/ - v selects the shape, among
+		// them the GeoJSON / HAR / glTF key names spelled with escapes
+		heads := []string{
+			`{"name":"x","caf\u00e9":1,`,
+			`{"ty\u0070e":"Feature","geometry":null,"properties":{"a\n":1},`,
+			`{"a":1,"\u0061":2,"b\"c":3,"d\\e":[{"\ud83d\ude00":"\ud83d\ude00"}],`,
+			`{"log":{"vers\u0069on":"1.2","creator":{"n\u0061me":"x"},"entries":[]},`,
+			`{"asset":{"vers\u0069on":"2.0"},"sc\u0065nes":[],`,
+			`{"k":"v","\u006b":"\u0076","x\/y":"\t",`,
+		}
+		var b bytes.Buffer
+		b.WriteString(heads[v%len(heads)])
+		for i := 0; b.Len() < clamp(n, 8, 1<<20); i++ {
+			fmt.Fprintf(&b, "\"k\\u00%02x%d\":{\"p\\u0061th\":[%d,\"%s\"]},", 0x61+i%26, i, i, words[i%40:i%40+7])
+		}
+		b.WriteString(`"z":null}`)
+		return b.Bytes()
 	case "json_wide":
 		var b bytes.Buffer
 		b.WriteString("[")
@@ -451,7 +470,7 @@ func (in Input) base() []byte {
 	case "gzip":
 		return append([]byte("\x1f\x8b\x08\x00\x00\x00\x00\x00\x00\x03"), textN(clamp(n, 0, 1<<16), in.Seed)...)
 	case "random":
-		b := make([]byte, clamp(n, 2, 1<<22))
+		b := make([]byte, clamp(n, 2, 1<<25))
 		r.Bytes(b)
 		b[0] = 0x01 // keep it binary and free of known magic numbers
 		b[1] = 0x02
